@@ -38,12 +38,17 @@ def sh(cmd, log, timeout=None, mem_gb=None, stack_unlimited=False, cwd=HARNESS):
     with open(log, "w") as f:
         f.write("$ " + line + "\n")
         f.flush()
+        # own process group, so that a timeout kills cargo, kani-driver, cbmc and test binaries alike
+        p = subprocess.Popen(["bash", "-c", line], cwd=cwd, env=ENV, stdout=f, stderr=subprocess.STDOUT, start_new_session=True)
         try:
-            p = subprocess.run(["bash", "-c", line], cwd=cwd, env=ENV, stdout=f, stderr=subprocess.STDOUT, timeout=timeout)
-            rc = p.returncode
+            rc = p.wait(timeout=timeout)
         except subprocess.TimeoutExpired:
             rc = -9
-            subprocess.run(["pkill", "-f", str(log.parent)], check=False)
+            try:
+                os.killpg(p.pid, 9)
+            except ProcessLookupError:
+                pass
+            p.wait()
     return rc, time.time() - t0
 
 
@@ -209,7 +214,7 @@ def run_replay(path, workdir):
         if profile == "release":  # `cargo kani playback` has no --release: give the test profile release settings instead
             cmd = ["env", "CARGO_PROFILE_DEV_OPT_LEVEL=3", "CARGO_PROFILE_DEV_DEBUG_ASSERTIONS=false", "CARGO_PROFILE_DEV_OVERFLOW_CHECKS=false",
                    "CARGO_PROFILE_TEST_OPT_LEVEL=3", "CARGO_PROFILE_TEST_DEBUG_ASSERTIONS=false", "CARGO_PROFILE_TEST_OVERFLOW_CHECKS=false"] + cmd
-        rc, wall = sh(cmd, log, timeout=900, mem_gb=None)
+        rc, wall = sh(cmd, log, timeout=600, mem_gb=None)
         out = open(log, errors="replace").read()
         built = "running " in out
         failed = bool(re.search(r"test result: FAILED|panicked at|SIGABRT|SIGSEGV|stack overflow|signal: \d+", out)) and built
